@@ -39,6 +39,27 @@ def int_type_of(tystr):
     return None
 
 
+_NL_CACHE = {}
+
+
+def has_nonlinear(t):
+    """does the term contain multiplication / division / remainder of two non-constant operands?"""
+    key = t.get_id()
+    r = _NL_CACHE.get(key)
+    if r is not None: return r[0]
+    k = t.decl().kind() if z3.is_app(t) else None
+    res = False
+    if k in (z3.Z3_OP_BMUL, z3.Z3_OP_BUDIV, z3.Z3_OP_BUREM, z3.Z3_OP_BSDIV, z3.Z3_OP_BSREM, z3.Z3_OP_BSMOD,
+             z3.Z3_OP_BUDIV_I, z3.Z3_OP_BUREM_I, z3.Z3_OP_BSDIV_I, z3.Z3_OP_BSREM_I, z3.Z3_OP_BSMOD_I,
+             z3.Z3_OP_BUMUL_NO_OVFL, z3.Z3_OP_BSMUL_NO_OVFL, z3.Z3_OP_BSMUL_NO_UDFL):
+        res = sum(0 if z3.is_bv_value(c) else 1 for c in t.children()) >= 2
+    if not res:
+        for c in t.children():
+            if has_nonlinear(c): res = True; break
+    _NL_CACHE[key] = (res, t)
+    return res
+
+
 class Leaf:
     __slots__ = ('pc', 'decisions', 'kind', 'value', 'steps', 'forks', 'site')
 
@@ -57,6 +78,17 @@ class Interp:
         self.type_cache = {}
         self._const_cache = {}
         self.trace = False
+        self.narrowing = True
+        self._var_bounds = None
+        self._ub_cache = {}
+        self._ub_keep = []
+        self.fork_sites = None
+        self.solver_timeout_ms = 20000
+        self.summarize = set()
+        self.in_summary = False
+        self.summary_cache = {}
+        self.summary_keep = []
+        self.summarized = set()
         self.map_order = None      # optional hook: f(interp, entries) -> entries in iteration order
         self.called = set()        # names of MIR bodies executed (evidence)
         self.modelled = set()      # model keys used (evidence)
@@ -65,14 +97,22 @@ class Interp:
 
     # ------------------------------------------------------------------ path driver
     def run_path(self, entry, args, decisions):
-        self.decisions = list(decisions)
-        self.pos = 0
+        self.decisions = dict(decisions) if decisions else {}
+        self.bcount = 0
         self.pc = []
         self.pending = []
         self.steps = 0
         self.nforks = 0
         self.solver = z3.Solver()
-        for a in self.assumptions: self.solver.add(a)
+        self.solver.set('timeout', self.solver_timeout_ms)
+        self.bsolver = z3.Solver()   # linear facts only: used to prove operand bounds for narrowing
+        self.bsolver.set('timeout', 500)
+        for a in self.assumptions:
+            self.solver.add(a)
+            if not has_nonlinear(a): self.bsolver.add(a)
+        self.model = None
+        self.bound_cache = {}
+        self.bound_keep = []
         self.stack = []
         try:
             f = self.lookup_fn(entry)
@@ -85,7 +125,7 @@ class Interp:
         return leaf, self.pending
 
     def explore(self, entry, args, max_paths=100000, on_leaf=None):
-        work = [[]]
+        work = [{}]
         leaves = []
         while work:
             dec = work.pop()
@@ -103,41 +143,86 @@ class Interp:
 
     # ------------------------------------------------------------------ branching
     def branch(self, cond):
-        """cond: bool | z3 Bool; returns the Python bool taken on this path"""
+        """cond: bool | z3 Bool; returns the Python bool taken on this path.
+        Decisions are keyed by the running count of branch() calls (which does not depend on how much z3's
+        simplifier happens to fold), so a recorded prefix replays identically in any process."""
+        self.bcount += 1
         if cond is True or cond is False: return cond
         if not isinstance(cond, z3.ExprRef): return bool(cond)
         c = z3.simplify(cond)
         if z3.is_true(c): return True
         if z3.is_false(c): return False
-        i = self.pos; self.pos += 1
-        if i < len(self.decisions):
-            b = self.decisions[i]
-            self.pc.append(c if b else z3.Not(c)); self.solver.add(self.pc[-1])
+        key = self.bcount
+        b = self.decisions.get(key)
+        if b is not None:
+            self.add_pc(c if b else z3.Not(c))
+            self.model = None
             return b
         t0 = time.time()
-        can_t = self.solver.check(c) == z3.sat
-        can_f = self.solver.check(z3.Not(c)) == z3.sat
-        self.solver_time += time.time() - t0; self.solver_checks += 2
+        nc = z3.Not(c)
+        m = self.model
+        val = None
+        if m is not None:
+            val = z3.is_true(m.eval(c, model_completion=True))
+        model_t = model_f = None
+        if val is True:
+            can_t = True; model_t = m
+            can_f = self.chk(nc)
+            if can_f: model_f = self.solver.model()
+        elif val is False:
+            can_f = True; model_f = m
+            can_t = self.chk(c)
+            if can_t: model_t = self.solver.model()
+        else:
+            can_t = self.chk(c)
+            if can_t:
+                model_t = self.solver.model()
+                can_f = self.chk(nc)
+                if can_f: model_f = self.solver.model()
+            else:
+                can_f = self.chk(nc)
+                if can_f: model_f = self.solver.model()
+        self.solver_time += time.time() - t0
         if can_t and can_f:
-            self.pending.append(self.decisions + [False])
+            alt = dict(self.decisions); alt[key] = False
+            self.pending.append(alt)
             self.nforks += 1
+            if self.fork_sites is not None:
+                k = (self.stack[-1] if self.stack else '?')
+                self.fork_sites[k] = self.fork_sites.get(k, 0) + 1
             b = True
         elif can_t: b = True
         elif can_f: b = False
         else:
-            raise Unsupported('infeasible path reached (contradictory assumptions?)')
-        self.decisions.append(b)
-        self.pc.append(c if b else z3.Not(c)); self.solver.add(self.pc[-1])
+            raise Unsupported('infeasible path reached (contradictory assumptions or a stale decision prefix)')
+        self.model = model_t if b else model_f
+        self.decisions[key] = b
+        self.add_pc(c if b else nc)
         return b
+
+    def chk(self, c):
+        self.solver_checks += 1
+        r = self.solver.check(c)
+        if r == z3.unknown:
+            raise Unsupported('solver returned unknown (%s) on a feasibility check in %s' % (self.solver.reason_unknown(), self.stack[-1] if self.stack else '?'))
+        return r == z3.sat
+
+    def add_pc(self, c):
+        self.pc.append(c); self.solver.add(c)
+        if not has_nonlinear(c): self.bsolver.add(c)
 
     def choose(self, n, what=''):
         """explicit nondeterministic choice among n alternatives (used for hash-map iteration orders)"""
+        self.bcount += 1
         if n <= 1: return 0
-        i = self.pos; self.pos += 1
-        if i < len(self.decisions): return self.decisions[i]
-        for alt in range(1, n): self.pending.append(self.decisions + [alt])
+        key = self.bcount
+        d = self.decisions.get(key)
+        if d is not None: return d
+        for alt in range(1, n):
+            dd = dict(self.decisions); dd[key] = alt
+            self.pending.append(dd)
         self.nforks += n - 1
-        self.decisions.append(0)
+        self.decisions[key] = 0
         return 0
 
     def concretize(self, v, what='value'):
@@ -146,14 +231,87 @@ class Interp:
         s = z3.simplify(v)
         if z3.is_bv_value(s): return s.as_long()
         for _ in range(64):
-            self.solver_checks += 1
-            if self.solver.check() != z3.sat: raise Unsupported('infeasible in concretize')
-            m = self.solver.model().eval(s, model_completion=True).as_long()
+            self.bcount += 1
+            key = self.bcount
+            rec = self.decisions.get(key)
+            if rec is not None:
+                m = rec[1]   # recorded candidate value (replay must not depend on the solver's model)
+            else:
+                self.solver_checks += 1
+                if self.solver.check() != z3.sat: raise Unsupported('infeasible in concretize')
+                m = self.solver.model().eval(s, model_completion=True).as_long()
+                self.decisions[key] = ('c', m)
             if self.branch(s == z3.BitVecVal(m, s.size())): return m
         raise Unsupported('cannot concretize %s (%s): too many values' % (what, s))
 
+    # ------------------------------------------------------------------ pure scalar functions: merged summaries
+    def summarized_call(self, f, args):
+        """`f` is a pure function over scalars (e.g. util::gcd).  Explore it on its own, under the global assumptions
+        only, and return its result as one if-then-else term over its path conditions instead of forking the caller
+        once per callee path.  Panicking callee paths are re-raised in the caller under their condition."""
+        key = (f.name,) + tuple(x.get_id() if isinstance(x, z3.ExprRef) else ('c', x) for x in args)
+        summ = self.summary_cache.get(key)
+        if summ is None:
+            saved = (self.decisions, self.bcount, self.pc, self.pending, self.solver, self.model, self.stack,
+                     self.bound_cache, self.steps, self.nforks)
+            saved_bsolver = self.bsolver
+            self.in_summary = True
+            try:
+                leaves = []
+                work = [{}]
+                while work:
+                    dec = work.pop()
+                    self.decisions = dict(dec); self.bcount = 0; self.pc = []; self.pending = []
+                    self.solver = z3.Solver(); self.solver.set('timeout', self.solver_timeout_ms)
+                    self.bsolver = z3.Solver(); self.bsolver.set('timeout', 500)
+                    for a in self.assumptions:
+                        self.solver.add(a)
+                        if not has_nonlinear(a): self.bsolver.add(a)
+                    self.model = None; self.bound_cache = {}; self.stack = []
+                    try:
+                        v = self.run_fn(f, list(args))
+                        leaves.append((list(self.pc), 'ret', v, ''))
+                    except Panic as p:
+                        leaves.append((list(self.pc), 'panic', p.msg, p.site))
+                    except Unbounded as u:
+                        leaves.append((list(self.pc), 'unbounded', str(u), ''))
+                    work.extend(self.pending)
+                    if len(leaves) > 4096: raise Unsupported('summary of %s has too many paths' % f.name)
+            finally:
+                self.in_summary = False
+                self.bsolver = saved_bsolver
+                (self.decisions, self.bcount, self.pc, self.pending, self.solver, self.model, self.stack,
+                 self.bound_cache, _steps, self.nforks) = saved
+                self.steps = max(self.steps, _steps)
+            summ = leaves
+            self.summary_cache[key] = summ
+            self.summary_keep.append(args)
+            self.summarized.add(f.name)
+        rets = []
+        for pc, kind, v, site in summ:
+            cond = z3.And(*pc) if len(pc) > 1 else (pc[0] if pc else z3.BoolVal(True))
+            if kind == 'ret':
+                rets.append((cond, v))
+            elif self.branch(cond):
+                if kind == 'panic': raise Panic(v, site)
+                raise Unbounded(v)
+        if not rets: raise Unsupported('summary of %s has no returning path' % f.name)
+        res = rets[-1][1]
+        w = None
+        for c, v in rets:
+            if isinstance(v, z3.ExprRef) and not z3.is_bool(v): w = v.size()
+        for c, v in reversed(rets[:-1]):
+            if w is not None:
+                res = z3.If(c, bv(v, w), bv(res, w))
+            else:
+                res = z3.If(c, zbool(v), zbool(res))
+        return res
+
     # ------------------------------------------------------------------ function execution
     def run_fn(self, f, args):
+        if f.name in self.summarize and not self.in_summary:
+            if any(isinstance(x, z3.ExprRef) for x in args):
+                return self.summarized_call(f, args)
         vars = {}
         fa = f.args
         if len(args) != len(fa):
@@ -545,6 +703,15 @@ class Interp:
         if op == 'SubWithOverflow':
             ok = z3.And(z3.BVSubNoOverflow(za, zb), z3.BVSubNoUnderflow(za, zb, True)) if s else z3.UGE(za, zb)
             return Tup([za - zb, z3.Not(ok)])
+        if op in ('MulWithOverflow', 'Mul') and (not sa or not sb):
+            # multiplication by a constant needs no bit-blasted multiplier
+            cst, sym = (a, zb) if not sa else (b, za)
+            if cst == 1 or cst == 0:
+                res = sym if cst == 1 else z3.BitVecVal(0, w)
+                return Tup([res, False]) if op == 'MulWithOverflow' else res
+        if op in ('MulWithOverflow', 'Mul', 'Div', 'Rem') and not s and w == 64 and self.narrowing:
+            r = self.narrow_op(op, za, zb)
+            if r is not None: return r
         if op == 'MulWithOverflow':
             ok = z3.And(z3.BVMulNoOverflow(za, zb, s), z3.BVMulNoUnderflow(za, zb)) if s else z3.BVMulNoOverflow(za, zb, False)
             return Tup([za * zb, z3.Not(ok)])
@@ -557,6 +724,131 @@ class Interp:
         if op == 'BitOr': return za | zb
         if op == 'BitXor': return za ^ zb
         raise Unsupported('symbolic binop ' + op)
+
+    # ---- bit-width narrowing: an unsigned 64-bit operation whose operands are provably small (under the assumptions
+    # and the path condition) is built at the small width and zero-extended; this is an equivalence, not an abstraction
+    def bound_bits(self, x):
+        if not isinstance(x, z3.ExprRef):
+            return 8 if x < 256 else 16 if x < 65536 else 32 if x < (1 << 32) else None
+        key = x.get_id()
+        if key in self.bound_cache: return self.bound_cache[key]
+        ub = self.syntactic_ub(x)
+        if ub is not None and ub < (1 << 32):
+            r = 8 if ub < 256 else 16 if ub < 65536 else 32
+            self.bound_cache[key] = r; self.bound_keep.append(x)
+            return r
+        r = None
+        t0 = time.time()
+        for k in (8, 16, 32):
+            self.solver_checks += 1
+            if self.bsolver.check(z3.UGE(x, z3.BitVecVal(1 << k, 64))) == z3.unsat:
+                r = k; break
+        self.solver_time += time.time() - t0
+        self.bound_cache[key] = r
+        self.bound_keep.append(x)
+        return r
+
+    def var_bounds(self):
+        """upper bounds of parameters read off the assumptions (ULT/ULE against constants, equalities, or-of-equalities)"""
+        if self._var_bounds is not None: return self._var_bounds
+        vb = {}
+        def note(v, ub):
+            if z3.is_const(v) and v.decl().kind() == z3.Z3_OP_UNINTERPRETED:
+                k = v.get_id(); vb[k] = min(vb.get(k, ub), ub)
+        def eq_ub(t):
+            # t: And/Or/== tree; returns dict var_id -> ub valid for the whole formula, or {}
+            k = t.decl().kind()
+            if k == z3.Z3_OP_EQ:
+                l, r = t.children()
+                if z3.is_bv_value(r) and z3.is_const(l): return {l.get_id(): r.as_long()}
+                if z3.is_bv_value(l) and z3.is_const(r): return {r.get_id(): l.as_long()}
+                return {}
+            if k == z3.Z3_OP_ULEQ:
+                l, r = t.children()
+                if z3.is_bv_value(r) and z3.is_const(l): return {l.get_id(): r.as_long()}
+                return {}
+            if k == z3.Z3_OP_ULT:
+                l, r = t.children()
+                if z3.is_bv_value(r) and z3.is_const(l) and r.as_long() > 0: return {l.get_id(): r.as_long() - 1}
+                return {}
+            if k == z3.Z3_OP_AND:
+                out = {}
+                for c in t.children():
+                    for kk, vv in eq_ub(c).items(): out[kk] = min(out.get(kk, vv), vv)
+                return out
+            if k == z3.Z3_OP_OR:
+                ds = [eq_ub(c) for c in t.children()]
+                keys = set(ds[0]) if ds else set()
+                for d in ds[1:]: keys &= set(d)
+                return {kk: max(d[kk] for d in ds) for kk in keys}
+            return {}
+        for a in self.assumptions:
+            if z3.is_app(a):
+                for kk, vv in eq_ub(z3.simplify(a) if False else a).items(): vb[kk] = min(vb.get(kk, vv), vv)
+        self._var_bounds = vb
+        return vb
+
+    def syntactic_ub(self, t, depth=0):
+        """a sound unsigned upper bound of a 64-bit term from its syntax and the parameter bounds, or None"""
+        if z3.is_bv_value(t): return t.as_long()
+        key = t.get_id()
+        c = self._ub_cache.get(key, False)
+        if c is not False: return c
+        r = None
+        if depth < 40 and z3.is_app(t):
+            k = t.decl().kind(); ch = t.children()
+            full = (1 << t.size()) - 1 if z3.is_bv(t) else None
+            if k == z3.Z3_OP_UNINTERPRETED and not ch:
+                r = self.var_bounds().get(key, full)
+            elif k == z3.Z3_OP_BADD:
+                bs = [self.syntactic_ub(x, depth + 1) for x in ch]
+                if all(b is not None for b in bs) and sum(bs) <= full: r = sum(bs)
+            elif k == z3.Z3_OP_BMUL:
+                bs = [self.syntactic_ub(x, depth + 1) for x in ch]
+                if all(b is not None for b in bs):
+                    p = 1
+                    for b in bs: p *= b
+                    if p <= full: r = p
+            elif k == z3.Z3_OP_ZERO_EXT:
+                r = self.syntactic_ub(ch[0], depth + 1)
+            elif k == z3.Z3_OP_CONCAT and len(ch) == 2 and z3.is_bv_value(ch[0]) and ch[0].as_long() == 0:
+                r = self.syntactic_ub(ch[1], depth + 1)
+            elif k == z3.Z3_OP_EXTRACT:
+                hi, lo = t.params()
+                b = self.syntactic_ub(ch[0], depth + 1)
+                if lo == 0:
+                    r = (1 << (hi + 1)) - 1
+                    if b is not None and b < r: r = b
+            elif k in (z3.Z3_OP_BUREM, z3.Z3_OP_BUREM_I):
+                r = self.syntactic_ub(ch[0], depth + 1)
+            elif k == z3.Z3_OP_ITE:
+                b1 = self.syntactic_ub(ch[1], depth + 1); b2 = self.syntactic_ub(ch[2], depth + 1)
+                if b1 is not None and b2 is not None: r = max(b1, b2)
+            elif k == z3.Z3_OP_BAND:
+                bs = [self.syntactic_ub(x, depth + 1) for x in ch]
+                bs = [b for b in bs if b is not None]
+                if bs: r = min(bs)
+            if r is None and full is not None: r = None
+        self._ub_cache[key] = r
+        self._ub_keep.append(t)
+        return r
+
+    def narrow_op(self, op, za, zb):
+        ka = self.bound_bits(za) if not z3.is_bv_value(za) else self.bound_bits(za.as_long())
+        if ka is None: return None
+        kb = self.bound_bits(zb) if not z3.is_bv_value(zb) else self.bound_bits(zb.as_long())
+        if kb is None: return None
+        k = max(ka, kb)
+        xa = z3.Extract(k - 1, 0, za); xb = z3.Extract(k - 1, 0, zb)
+        if op == 'Rem':
+            return z3.ZeroExt(64 - k, z3.URem(xa, xb))
+        if op == 'Div':
+            return z3.If(zb == 0, z3.BitVecVal(MASK[64], 64), z3.ZeroExt(64 - k, z3.UDiv(xa, xb)))
+        if 2 * k > 64: return None
+        prod = z3.ZeroExt(k, xa) * z3.ZeroExt(k, xb)
+        res = z3.ZeroExt(64 - 2 * k, prod) if 2 * k < 64 else prod
+        if op == 'Mul': return res
+        return Tup([res, False])
 
     def cast(self, f, v, ty, kind, src_ity):
         if kind.startswith('IntToInt'):
